@@ -4,6 +4,7 @@ import (
 	"net"
 	"strings"
 
+	"github.com/miekg/dns"
 	"github.com/semihalev/sdns/config"
 	"github.com/semihalev/zlog/v2"
 )
@@ -137,6 +138,11 @@ func compileConfig(cfg *config.Config) *compiled {
 		if !strings.HasSuffix(z, ".") {
 			z += "."
 		}
+		// The entry is compared with the library's rendering of the query
+		// name, so it must be in that rendering itself: an operator may
+		// write any legal presentation form ("\069xample.org" is
+		// example.org), the library prints exactly one.
+		z = canonicalZoneText(z)
 		out.excludeZones = append(out.excludeZones, z)
 	}
 
@@ -229,6 +235,21 @@ func (c *compiled) clientEligible(ip net.IP) bool {
 		}
 	}
 	return false
+}
+
+// canonicalZoneText returns the library's own lower-case rendering of the
+// name z denotes; a text the library cannot read as a name is kept as it is.
+func canonicalZoneText(z string) string {
+	buf := make([]byte, 256)
+	n, err := dns.PackDomainName(z, buf, 0, nil, false)
+	if err != nil {
+		return z
+	}
+	name, _, err := dns.UnpackDomainName(buf[:n], 0)
+	if err != nil {
+		return z
+	}
+	return strings.ToLower(name)
 }
 
 // zoneExcluded reports whether qname (canonical, lower-case, FQDN)
